@@ -354,6 +354,13 @@ package db
 //@ // ===== C13: schema version / collection identifiers are deterministic functions of the (sorted) set of
 //@ // type definitions
 //@ discipline deterministic generateSetID, assignIDs allow slices.SortFunc[*], strings.Compare, json.Marshal, cid.NewSHA256CidV1, (cid.Cid).String, fmt.Sprintf tags C13
+//@ // the walk that numbers the members of circular sets visits the types in sorted-name order, not in the
+//@ // order of the SDL or of a map
+//@ func getSchemaSets
+//@   assert before call#1 mapSchemaSetIDs: called(Sort, 1)
+//@   assert before call#1 mapSchemaSetIDs: sameslice(callarg(Sort, 1, 0), circularSchemaNames)
+//@   loop 7 ranges circularSchemaNames
+//@   tags C13
 //@ func generateSetID -> (id, err)
 //@   assert before call#1 Marshal: sameslice(callarg(SortFunc, 1, 0), schemaSet)
 //@   assert before call#1 NewSHA256CidV1: sameslice(arg0, res(Marshal, 1, 0)) && res(Marshal, 1, 1) == nil
